@@ -250,6 +250,8 @@ virtual class Cls : Base<TT> {
   TT meth(UU* u, TT::QQ v, const QQ& w, const This::QQ& tq) const;
   pair<TT, QQ> pr(std::vector<TT> vs);
   static This make(const TT@ t, QQ name);
+  static This::QQ pick(std::vector<This::QQ> many, const This::QQ& one, std::vector<This> all);
+  static std::vector<This::QQ> every(TT::QQ v);
   TT prop;
   const QQ other;
   TT operator+(const TT& o) const;
@@ -387,6 +389,16 @@ def c02_class_positions(p: str, q: str) -> bool:
     got.append(("op.ret", op.return_type.type1.to_cpp()))
     got.append(("op.o", op.args.list()[0].ctype.to_cpp(), None))
     ok = True
+    for si in (1, 2):
+        so, sg = cls.static_methods[si], ic.static_methods[si]
+        pairs = [(so.name + ".ret", so.return_type.type1, sg.return_type.type1)] + [
+            (so.name + "." + ao.name, ao.ctype, ag.ctype) for ao, ag in zip(so.args.list(), sg.args.list())]
+        for label, node, gnode in pairs:
+            w1 = ref_cpp(ref_subst(_ty_of(node), params_c, insts_c, this))
+            w2 = ref_cpp(ref_subst(_ty_of(node), params_c, insts_c, this, True))
+            if gnode.to_cpp() not in (w1, w2):
+                reached()
+                return _fail(position="static " + label, got=gnode.to_cpp(), want=(w1, w2))
     if len(got) != len(exp):
         ok = _fail(got=got, want=exp)
     else:
